@@ -51,6 +51,8 @@ package function
 //@   requires series-list-loaded-once: o.once != 0 ==> fopSeries(o)
 //@   requires vector-of-a-scalar-has-one-series: o.funcExpr.Func.Name == "vector" ==> o.nextOps[o.vectorIndex].nSeries == 1
 //@   panics may
+//@   ensures[C15] child-error-surfaces: ncalls("model.VectorOperator.Next") >= 1 && callres("model.VectorOperator.Next", 1, 1) != nil ==> result1 != nil
+//@   ensures[C15] second-child-error-surfaces: ncalls("model.VectorOperator.Next") >= 2 && callres("model.VectorOperator.Next", 2, 1) != nil ==> result1 != nil
 //@   ghostvar nvalid int = 0
 //@   ensures[C18] error-means-no-batch: result1 != nil ==> isnil(result0)
 //@   ensures[C06,C07,C18] one-output-vector-per-input-vector: result1 == nil && !isnil(result0) ==>
